@@ -52,6 +52,7 @@ func witnesses() []witness {
 		{"|{1.2.3.4:1970-01-01T00:00:00Z}|", p + "map-entry-lexer-ambiguity", one(mapT(Prim(idIP), Prim(idTime)),
 			&VSpec{Elems: []*VSpec{pv(zed.EncodeIP(netip.MustParseAddr("1.2.3.4"))), pv(zed.EncodeInt(0))}})},
 		{"1 of type x=(x=int64)", p + "named-over-same-name", one(named("x", named("x", Prim(idInt64))), i1)},
+		{"1 of type z=(y=int64)", p + "named-over-named", one(named("z", named("y", Prim(idInt64))), i1)},
 		{"{a:null(z=int64),b:{c:1(uint8)}(z={c:uint8})}", p + "same-name-two-types", one(&TSpec{Kind: "record", Fields: []TField{
 			{Name: "a", Type: named("z", Prim(idInt64))}, {Name: "b", Type: named("z", rec1("c", Prim(idUint8)))}}},
 			&VSpec{Elems: []*VSpec{{Null: true}, {Elems: []*VSpec{pv(zed.EncodeUint(1))}}}})},
